@@ -30,7 +30,7 @@ import io
 import os
 
 from . import core
-from .elfutil import concretise
+from .elfutil import concretise, registry
 
 LEVEL = 'model_checking'
 
@@ -149,6 +149,24 @@ def _load(ELFFile, data, relocate):
         return {'exc': type(ex).__name__, 'msg': str(ex)[:120]}
 
 
+_RECIPE_TOKENS = {3: ('X86',), 62: ('X64', 'X86_64'), 8: ('MIPS',), 40: ('ARM',), 183: ('AARCH64',), 21: ('PPC64',), 22: ('S390',),
+                  247: ('EBPF', 'BPF'), 258: ('LOONGARCH',), 243: ('RISCV',)}
+
+
+def _claims_support(machine, types):
+    """Vocabulary only (keys, never formulas): does the tree under test list any of these type codes in a recipe table it keeps for
+    this machine?  A type the library has since learnt to apply is inside "the supported set" - the specification, which has no
+    formula for it, does not judge it (neither as an error nor as a value)."""
+    from elftools.elf.relocation import RelocationHandler
+    toks = _RECIPE_TOKENS.get(machine) or tuple(n[3:] for n, v in registry()['names'].items() if n.startswith('EM_') and v and v[0] == machine)
+    for attr in dir(RelocationHandler):
+        if attr.startswith('_RELOCATION_RECIPES_') and any(attr[len('_RELOCATION_RECIPES_'):].startswith(t) for t in toks):
+            tab = getattr(RelocationHandler, attr)
+            if isinstance(tab, dict) and any(t in tab for t in types):
+                return True
+    return False
+
+
 def _apply(run, case, data, ELFFile, bad, stats):
     mname = '%s/%d' % (MACH.get(case['machine'], str(case['machine'])), case['cls'])
     fl = 'RELA' if case['rela'] else 'REL'
@@ -159,6 +177,10 @@ def _apply(run, case, data, ELFFile, bad, stats):
     got1 = _load(ELFFile, data, True)
     if case['err']:
         stats['refused'] += 1
+        if case['err'] == 'unsupported' and not isinstance(got1, dict) and \
+                _claims_support(case['machine'], [_u(e[3]) for e in case['entries']]):
+            stats['unjudged_new_support'] = stats.get('unjudged_new_support', 0) + 1
+            return
         if not (isinstance(got1, dict) and got1['exc'] == 'ELFRelocationError'):
             obs = got1 if isinstance(got1, dict) else ('no exception; section %s' % ('unchanged' if got1 == orig else 'modified'))
             bad('apply.error', 'ELFRelocationError', obs, tag='%s:%s:%s' % (case['err'], mname, fl))
